@@ -1,6 +1,6 @@
 """C25 - spin doubling and spin-orbit assembly preserve the spectrum (REF + DIFF).
 
-Four families of cases (idx % 4):
+Six families of cases (idx % 6):
  0  System_R.double_spin: every level of the spinless system exactly twice at random k
     (evaluate_k and Data_K_R.HH_K = H(k) (x) 1_2 in interlaced order), the spin operator restricted to
     every doubled level has eigenvalues +-1 and obeys the Pauli algebra, it commutes with H, other
@@ -13,6 +13,15 @@ Four families of cases (idx % 4):
  3  SOC.get_pauli_rotated(theta, phi): Pauli algebra, Hermitian, traceless, component along n(theta,phi) =
     diag(1,-1); set_soc_axis(units='degrees') == set_soc_axis(radians); spin operator of a one-channel
     SystemSOC along the axis = diag(+1,-1,...) at R=0.
+
+ 4  (idx % 6, widening review) one SystemSOC object through 1-3 public calls - swap_spin_channels (+ set_soc_axis), a second
+    set_soc_axis with other angles / units, to_npz -> from_npz (-> set_soc_axis), swap twice, use (warm caches) - judged after
+    every step: spectrum, HH_K, SS(k), dH/dk (independent reference with channel-dependent centres) of Data_K_soc and of
+    get_system_R(); results handed out earlier stay valid; 3D and 2D.
+ 5  set_soc_R options on the same synthetic input: kptirr/weights_k naming every mesh point (permuted), ws_dist_tol, SOC data /
+    overlap as array, list, dict, SOC.select_bands of a larger band set (different selections per channel), axis set later.
+    Pending findings (VERIF_C25_PENDING=1): stale centres after swap_spin_channels with channel-dependent centres; to_npz() of a
+    SystemSOC built without cell.
 
 Oracles: eigenvalues / matrices computed in the harness from the real-space matrices
 (vlib.gen_systems.bands, vlib.gen_soc.soc_H_ref / soc_SS_ref), never from Ham_SOC / SS of the system.
@@ -379,19 +388,375 @@ def case_pauli(ctx, rng, idx):
     ctx.sample(wit)
 
 
+# --------------------------------------------------------------------------------------------------
+#   widening review: histories of one SystemSOC object and documented options of set_soc_R / SOC
+# --------------------------------------------------------------------------------------------------
+PENDING = os.environ.get("VERIF_C25_PENDING", "0") == "1"
+
+
+def swap_info(info):
+    """reference description of the system after SystemSOC.swap_spin_channels(): the channels, the diagonal SOC blocks are
+    exchanged, dV^{01}_new(R) = dV^{10}(R) = dV^{01}(-R)^dagger, O_new(R) = O(-R)^dagger"""
+    new = dict(info)
+    if info["nspin"] == 1:
+        return new
+    new["system_up"], new["system_down"] = info["system_down"], info["system_up"]
+    m, iR = info["mats"], info["iRvec_soc"]
+    new["mats"] = {"dV_soc_wann_0_0": m["dV_soc_wann_1_1"], "dV_soc_wann_1_1": m["dV_soc_wann_0_0"],
+                   "dV_soc_wann_0_1": gen_soc._conj_R(iR, m["dV_soc_wann_0_1"]),
+                   "overlap_up_down": gen_soc._conj_R(iR, m["overlap_up_down"])}
+    return new
+
+
+def _dH_block(iR, X, k, lattice, ci, cj):
+    iR = np.asarray(iR)
+    ph = np.exp(2j * np.pi * (iR @ k))
+    d = (iR @ lattice)[:, None, None, :] + cj[None, None, :, :] - ci[None, :, None, :]
+    return np.einsum("r,rij,rija->ija", ph, X, 1j * d)
+
+
+def soc_dH_ref(info, kall):
+    """reference dH/dk in the Wannier basis (convention of Xbar('Ham',1): factors i(R + t_j - t_i), phases e^{2 pi i k.R}), every spin
+    channel with its own centres and R set, the SOC term with the interlaced centres"""
+    s_up, s_dn = info["system_up"], info["system_down"]
+    nw = info["num_wann_scalar"]
+    lat = np.array(s_up.real_lattice)
+    iRs, HsocR = gen_soc.soc_ham_R_ref(info)
+    cc = np.zeros((2 * nw, 3))
+    cc[0::2] = s_up.wannier_centers_cart
+    cc[1::2] = s_dn.wannier_centers_cart
+    out = []
+    for k in kall:
+        V = np.zeros((2 * nw, 2 * nw, 3), dtype=complex)
+        V[0::2, 0::2] = _dH_block(s_up.rvec.iRvec, s_up.get_R_mat("Ham"), k, lat, cc[0::2], cc[0::2])
+        V[1::2, 1::2] = _dH_block(s_dn.rvec.iRvec, s_dn.get_R_mat("Ham"), k, lat, cc[1::2], cc[1::2])
+        V += _dH_block(iRs, HsocR, k, lat, cc, cc)
+        out.append(V)
+    return np.array(out)
+
+
+def build_soc(rng, nspin, path, same_centers, periodic, relation=None, num_wann=None, chk_kw=None, **axis):
+    """like gen_soc.soc_system, with the periodicity and the set_soc_R options open"""
+    if relation is None:
+        relation = gen_soc.RELATIONS[int(rng.integers(4))]
+    if num_wann is None:
+        num_wann = int(rng.integers(1, 4))
+    s_up, s_dn = gen_soc.updown_systems(rng, num_wann=num_wann, relation=relation, same_centers=same_centers, periodic=periodic)
+    if nspin == 1:
+        s_dn = None
+    if path == "direct":
+        system, info = gen_soc.soc_system_direct(rng, s_up, s_dn, **axis)
+    else:
+        system, info = gen_soc.soc_system_via_chk(rng, s_up, s_dn, **axis, **(chk_kw or {}))
+    info["relation"] = relation if nspin == 2 else "equal"
+    info["system_up"] = s_up
+    info["system_down"] = s_dn if s_dn is not None else s_up
+    info["num_wann_scalar"] = s_up.num_wann
+    return system, info
+
+
+def random_axis(rng):
+    theta = [0.0, np.pi / 2, np.pi, rng.uniform(0, np.pi), rng.uniform(0, np.pi)][int(rng.integers(5))]
+    phi = [0.0, rng.uniform(-np.pi, np.pi), rng.uniform(0, 2 * np.pi)][int(rng.integers(3))]
+    alpha = [1.0, rng.uniform(0.2, 2.0), -rng.uniform(0.2, 1.0)][int(rng.integers(3))]
+    return float(theta), float(phi), float(alpha)
+
+
+def judge_soc(ctx, rng, system, info, wit, after, judge_dH=True):
+    """all observations of a SystemSOC against the harness reference described by info"""
+    import wannierberri as wb
+    per = np.array(info["system_up"].periodic, dtype=bool)
+    ks = rng.uniform(-1, 1, (2, 3))
+    Eref = gen_soc.soc_bands_ref(info, ks)
+    scale = max(np.abs(Eref).max(), 1.0)
+    for k, e in zip(ks, Eref):
+        E = wb.evaluate_k(system, k=k, quantities=["energy"])
+        ctx.close(f"after_{after}:spectrum!=reference_assembly[evaluate_k]", E, e, rtol=RTOL, scale=scale, what="spectrum", witness=wit)
+    NK = [int(x) for x in rng.integers(1, 4, size=3)]
+    for i in range(3):
+        if not per[i]:
+            NK[i] = 1
+    NK = tuple(NK)
+    dK = rng.uniform(0, 1, 3) / np.array(NK) * per
+    data, kall = make_data_k(system, NK, dK)
+    Href = gen_soc.soc_H_ref(info, kall)
+    ctx.close(f"after_{after}:Data_K_soc.HH_K!=reference_assembly", data.HH_K, Href, rtol=RTOL, scale=scale, what="HH_K", witness=wit)
+    SSref = gen_soc.soc_SS_ref(info, kall)
+    SSref = 0.5 * (SSref + np.conj(np.swapaxes(SSref, 1, 2)))
+    ctx.close(f"after_{after}:Data_K_soc.Xbar(SS)!=reference_assembly", wannier_gauge(data, data.Xbar("SS")), SSref, rtol=RTOL,
+              scale=max(np.abs(SSref).max(), 1.0), what="SS", witness=wit)
+    sysR = system.get_system_R()
+    sysR.set_pointgroup([])
+    d_R, _ = make_data_k(sysR, NK, dK)
+    ctx.close(f"after_{after}:get_system_R:HH_K!=reference_assembly", d_R.HH_K, Href, rtol=RTOL, scale=scale, what="HH_K", witness=wit)
+    ctx.close(f"after_{after}:get_system_R:Xbar(SS)!=reference_assembly", wannier_gauge(d_R, d_R.Xbar("SS")), SSref, rtol=RTOL,
+              scale=max(np.abs(SSref).max(), 1.0), what="SS", witness=wit)
+    if judge_dH:
+        Vref = soc_dH_ref(info, kall)
+        vs = max(np.abs(Vref).max(), 1.0)
+        ctx.close(f"after_{after}:Data_K_soc.Xbar(Ham,1)!=reference_assembly", wannier_gauge(data, data.Xbar("Ham", 1)), Vref,
+                  rtol=1e-9, scale=vs, what="dH/dk", witness=wit)
+        ctx.close(f"after_{after}:get_system_R:Xbar(Ham,1)!=reference_assembly", wannier_gauge(d_R, d_R.Xbar("Ham", 1)), Vref,
+                  rtol=1e-9, scale=vs, what="dH/dk", witness=wit)
+        ctx.count("history_dH_judged")
+    ctx.count(f"history_judged_after_{after}")
+
+
+def op_npz(ctx, rng, system, info, wit):
+    """to_npz -> from_npz of the SystemSOC (a system constructed without a cell is saved with exclude_properties=['cell'])"""
+    import tempfile
+    import shutil
+    from wannierberri.system.system_soc import SystemSOC
+    d = tempfile.mkdtemp(prefix="c25npz", dir=env.WORK if os.path.isdir(env.WORK) else "/tmp")
+    try:
+        path = os.path.join(d, "soc")
+        if system.cell is None and not PENDING:
+            system.to_npz(path, exclude_properties=["cell"])
+        else:
+            system.to_npz(path)       # documented default call
+            ctx.count("npz_default_call")
+        if rng.random() < 0.3:
+            system.to_npz(path, exclude_properties=["cell"] if system.cell is None else ())   # overwrite=True: second save into the same directory
+        loaded = SystemSOC.from_npz(path)
+    finally:
+        shutil.rmtree(d, ignore_errors=True)
+    loaded.set_pointgroup([])
+    if loaded.nspin != system.nspin or not loaded.has_soc:
+        ctx.violation("from_npz:nspin_or_has_soc_lost", f"nspin {system.nspin}->{loaded.nspin}, has_soc {loaded.has_soc}", wit)
+    ctx.count("history_npz_roundtrip")
+    return loaded
+
+
+def case_soc_history(ctx, rng, idx):
+    """one SystemSOC object taken through a random sequence of public calls; after every step all observables are judged against
+    the reference assembly of the state the documentation implies"""
+    nspin = 2 if rng.random() < 0.8 else 1
+    path = "direct" if rng.random() < 0.6 else "chk"
+    same_centers = bool(rng.random() < 0.5)
+    periodic = (True, True, True) if rng.random() < 0.8 else (True, True, False)
+    th, ph, al = random_axis(rng)
+    kw = dict(theta=th, phi=ph, alpha_soc=al)
+    if path == "chk":
+        chk_kw = dict(extra_bands=int(rng.integers(0, 3)), give_overlap=bool(rng.random() < 0.8))
+    else:
+        chk_kw = None
+        kw["units"] = "degrees" if rng.random() < 0.3 else "radians"
+    system, info = build_soc(rng, nspin, path, same_centers, periodic, chk_kw=chk_kw, **kw)
+    nops = int(rng.integers(1, 4))
+    ops = [["swap", "axis", "npz", "swap_swap", "use"][int(rng.integers(5))] for _ in range(nops)]
+    wit = dict(kind="soc_history", nspin=nspin, path=path, same_centers=same_centers, periodic=periodic, ops=ops,
+               nw=info["num_wann_scalar"], relation=info["relation"], rmode=info["rmode"], theta=th, phi=ph, alpha_soc=al)
+    centres_stale = False      # swap with channel-dependent centres: pending finding (stale reduced centres / R-vector shifts)
+    for op in ops:
+        if op == "use":
+            monitors.warm_caches(system)
+            make_data_k(system, (2, 2, 1), np.zeros(3))[0].HH_K
+        elif op == "axis":
+            old = (np.array(system.get_R_mat("Ham_SOC")), np.array(system.get_R_mat("SS")))
+            held = (system.get_R_mat("Ham_SOC"), system.get_R_mat("SS"))
+            th, ph, al = random_axis(rng)
+            units = "degrees" if rng.random() < 0.3 else "radians"
+            f = 180 / np.pi if units == "degrees" else 1.0
+            ret = system.set_soc_axis(theta=th * f, phi=ph * f, alpha_soc=al, units=units)
+            info = dict(info, theta=th, phi=ph, alpha_soc=al)
+            # values handed out earlier stay valid
+            ctx.close("set_soc_axis:second_call_modified_earlier_result[Ham_SOC]", held[0], old[0], rtol=0, atol=0, what="earlier Ham_SOC", witness=wit)
+            ctx.close("set_soc_axis:second_call_modified_earlier_result[SS]", held[1], old[1], rtol=0, atol=0, what="earlier SS", witness=wit)
+            _, Href = gen_soc.soc_ham_R_ref(info)
+            ctx.close("set_soc_axis:second_call:returned_Ham_SOC!=reference_assembly", ret[0], Href, rtol=RTOL, scale=max(np.abs(Href).max(), 1e-3),
+                      what="returned Ham_SOC", witness=wit)
+            ctx.count("history_second_set_soc_axis")
+        elif op in ("swap", "swap_swap"):
+            for _ in range(2 if op == "swap_swap" else 1):
+                system.swap_spin_channels()
+                info = swap_info(info)
+                if nspin == 2 and not same_centers:
+                    centres_stale = not centres_stale
+            if nspin == 2 and system.has_R_mat("Ham_SOC"):
+                ctx.violation("swap_spin_channels:stale_Ham_SOC_kept", "Ham_SOC of the old channel order is still set", wit)
+            call_axis = nspin == 2 or rng.random() < 0.5     # one channel: swap is a no-op that keeps Ham_SOC and SS
+            if call_axis and rng.random() < 0.5:
+                th, ph, al = random_axis(rng)
+                info = dict(info, theta=th, phi=ph, alpha_soc=al)
+            if call_axis:
+                system.set_soc_axis(theta=info["theta"], phi=info["phi"], alpha_soc=info["alpha_soc"])
+            ctx.count("history_swap_spin_channels" if nspin == 2 else "history_swap_one_channel")
+        elif op == "npz":
+            system = op_npz(ctx, rng, system, info, wit)
+            centres_stale = False      # the loaded object is built from the saved centres
+            if rng.random() < 0.4:
+                th, ph, al = random_axis(rng)
+                info = dict(info, theta=th, phi=ph, alpha_soc=al)
+                system.set_soc_axis(theta=th, phi=ph, alpha_soc=al)
+                ctx.count("history_set_soc_axis_after_npz")
+        if centres_stale and PENDING:
+            monitors.assert_no_stale_caches(ctx, system, "swap_spin_channels", wit)
+        judge_soc(ctx, rng, system, info, wit, op, judge_dH=(not centres_stale) or PENDING)
+    if periodic == (True, True, False):
+        ctx.count("history_2D")
+    ctx.nontrivial(("history", nspin, path, same_centers, periodic, tuple(ops), info["num_wann_scalar"]))
+    ctx.sample(wit)
+
+
+# --------------------------------------------------------------------------------------------------
+def on_mesh_spectrum(ctx, rng, system, info, wit, mech):
+    """set_soc_R: at the ab-initio mesh points the SOC term equals the (Wannier-gauge) input"""
+    import wannierberri as wb
+    nw = info["num_wann_scalar"]
+    kq = info["kpt_red"]
+    sel = np.arange(len(kq)) if len(kq) <= 12 else rng.choice(len(kq), 12, replace=False)
+    P = gen_soc.pauli_rotated_ref(info["theta"], info["phi"])
+    Hs = np.zeros((len(sel), 2 * nw, 2 * nw), dtype=complex)
+    for s in (0, 1):
+        for t in (0, 1):
+            if info["nspin"] == 1:
+                X = info["dVW_q"][(0, 0)][sel]
+            elif s <= t:
+                X = info["dVW_q"][(s, t)][sel]
+            else:
+                X = np.conj(np.swapaxes(info["dVW_q"][(t, s)][sel], 1, 2))
+            Hs[:, s::2, t::2] = np.einsum("kmnc,c->kmn", X, P[s, t])
+    Hs *= info["alpha_soc"]
+    H0 = gen_soc.soc_H_ref(info, kq[sel], alpha_soc=0.0)
+    Eq = np.linalg.eigvalsh(0.5 * (H0 + Hs + np.conj(np.swapaxes(H0 + Hs, 1, 2))))
+    Eq_lib = np.array([wb.evaluate_k(system, k=k, quantities=["energy"]) for k in kq[sel]])
+    ctx.close(mech, Eq_lib, Eq, rtol=RTOL, scale=max(np.abs(Eq).max(), 1.0), what="spectrum at ab-initio mesh points", witness=wit)
+    if info["nspin"] == 2 and info["ovW_q"] is not None:
+        # spin operator at the mesh points: off-diagonal blocks = overlap (x) P[0,1]
+        d_ss = np.array(system.get_R_mat("SS"))
+        S = np.array([ft(info["iRvec_soc"], d_ss, k) for k in kq[sel]])
+        Sexp = np.zeros_like(S)
+        for s in (0, 1):
+            Sexp[:, s::2, s::2, :] = np.eye(nw)[None, :, :, None] * P[s, s][None, None, None, :]
+        ov = info["ovW_q"][sel]
+        Sexp[:, 0::2, 1::2, :] = ov[:, :, :, None] * P[0, 1][None, None, None, :]
+        Sexp[:, 1::2, 0::2, :] = np.conj(np.swapaxes(ov, 1, 2))[:, :, :, None] * P[1, 0][None, None, None, :]
+        ctx.close(mech.replace("spectrum", "spin_operator"), S, Sexp, rtol=RTOL, scale=1.0, what="S(k) at ab-initio mesh points", witness=wit)
+
+
+def case_soc_R_options(ctx, rng, idx):
+    """documented options of SystemSOC.set_soc_R and of the SOC container: kptirr/weights_k naming every mesh point, ws_dist_tol,
+    overlap / data given as list, array or dict, SOC.select_bands of a larger band set, 2D systems"""
+    from wannierberri.system.system_soc import SystemSOC
+    from wannierberri.w90files.soc import SOC
+    nspin = 2 if rng.random() < 0.75 else 1
+    periodic = (True, True, True) if rng.random() < 0.8 else (True, True, False)
+    same_centers = bool(rng.random() < 0.5)
+    th, ph, al = random_axis(rng)
+    captured = {}
+    orig_set = SystemSOC.set_soc_R
+
+    # the generator of vlib.gen_soc calls set_soc_R(soc, chk_up, chk_down, theta, phi, alpha_soc); this family re-issues the call on a
+    # fresh SystemSOC with the options under test, using the same synthetic input
+    def capture(self, soc, chk_up, chk_down=None, **kw):
+        captured.update(soc=soc, chk_up=chk_up, chk_down=chk_down)
+        return orig_set(self, soc, chk_up=chk_up, chk_down=chk_down, **kw)
+
+    SystemSOC.set_soc_R = capture
+    try:
+        system0, info = build_soc(rng, nspin, "chk", same_centers, periodic, theta=th, phi=ph, alpha_soc=al,
+                                  chk_kw=dict(extra_bands=int(rng.integers(0, 3)), give_overlap=True))
+    finally:
+        SystemSOC.set_soc_R = orig_set
+    soc0, chk_up, chk_dn = captured["soc"], captured["chk_up"], captured["chk_down"]
+    nk = chk_up.num_kpts
+    nb = info["nb"]
+    option = ["kptirr_all", "ws_dist_tol", "containers", "select_bands", "axis_later"][int(rng.integers(5))]
+    wit = dict(kind="set_soc_R_options", option=option, nspin=nspin, periodic=periodic, same_centers=same_centers, nw=info["num_wann_scalar"],
+               nb=nb, mp_grid=info["mp_grid"].tolist(), theta=th, phi=ph, alpha_soc=al)
+    data = np.array([soc0.data[i] for i in range(nk)])
+    overlap = np.array([soc0.overlap[i] for i in range(nk)]) if nspin == 2 else None
+    kw = dict(theta=th, phi=ph, alpha_soc=al)
+    soc = None
+    if option == "kptirr_all":
+        perm = rng.permutation(nk)
+        kw.update(kptirr=perm if rng.random() < 0.5 else perm.tolist(), weights_k=np.ones(nk) if rng.random() < 0.5 else [1.0] * nk)
+    elif option == "ws_dist_tol":
+        kw.update(ws_dist_tol=float(10 ** rng.uniform(-9, -3)))
+    elif option == "containers":
+        form = int(rng.integers(3))
+        d_in = [data, list(data), {int(i): data[i] for i in rng.permutation(nk)}][form]
+        if nspin == 2:
+            o_in = [list(overlap), {int(i): overlap[i] for i in rng.permutation(nk)}, overlap][form]
+        else:
+            o_in = None
+        soc = SOC(data=d_in, overlap=o_in, NK=nk)
+        wit["form"] = form
+    elif option == "select_bands":
+        # a larger band set with unrelated entries in the bands that are not selected
+        nbig = nb + int(rng.integers(1, 4))
+        sel_up = np.sort(rng.choice(nbig, nb, replace=False))
+        sel_dn = np.sort(rng.choice(nbig, nb, replace=False)) if (nspin == 2 and rng.random() < 0.6) else sel_up
+        sels = [sel_up, sel_dn]
+        big = rng.normal(size=(nk, nspin, nspin, 3, nbig, nbig)) + 1j * rng.normal(size=(nk, nspin, nspin, 3, nbig, nbig))
+        for s in range(nspin):
+            for t in range(nspin):
+                big[:, s, t][:, :, sels[s][:, None], sels[t][None, :]] = data[:, s, t]
+        obig = None
+        if nspin == 2:
+            obig = rng.normal(size=(nk, nbig, nbig)) + 0j
+            obig[:, sel_up[:, None], sel_dn[None, :]] = overlap
+        soc = SOC(data=big, overlap=obig)
+        if nspin == 1 or (sel_dn is sel_up and rng.random() < 0.5):
+            soc.select_bands(sel_up if rng.random() < 0.5 else sel_up.tolist())
+        else:
+            soc.select_bands(sel_up, sel_dn)
+        if soc.NB != nb:
+            ctx.violation("SOC.select_bands:NB", f"NB={soc.NB}, expected {nb}", wit)
+        dsel = np.array([soc.data[i] for i in range(nk)])
+        ctx.close("SOC.select_bands:data!=selected_bands_of_input", dsel, data, rtol=0, atol=0, what="selected SOC data", witness=wit)
+        if nspin == 2:
+            osel = np.array([soc.overlap[i] for i in range(nk)])
+            ctx.close("SOC.select_bands:overlap!=selected_bands_of_input", osel, overlap, rtol=0, atol=0, what="selected overlap", witness=wit)
+    elif option == "axis_later":
+        kw = {}         # defaults theta=0, phi=0, alpha_soc=1 - the axis is set by a later call
+    if soc is None:
+        soc = SOC(data=data, overlap=overlap)
+    system = SystemSOC(system_up=info["system_up"], system_down=info["system_down"] if nspin == 2 else None)
+    ret = system.set_soc_R(soc, chk_up=chk_up, chk_down=chk_dn, **kw)
+    system.set_pointgroup([])
+    if option == "axis_later":
+        info0 = dict(info, theta=0.0, phi=0.0, alpha_soc=1.0)
+        on_mesh_spectrum(ctx, rng, system, info0, wit, "set_soc_R[default_axis]:spectrum_on_mesh!=input")
+        units = "degrees" if rng.random() < 0.5 else "radians"
+        f = 180 / np.pi if units == "degrees" else 1.0
+        ret = system.set_soc_axis(theta=th * f, phi=ph * f, alpha_soc=al, units=units)
+    ctx.close("set_soc_R:return_value", ret[0], system.get_R_mat("Ham_SOC"), rtol=0, atol=0, what="returned Ham_SOC", witness=wit)
+    # differential: the primary real-space matrices do not depend on the way the same input was handed over
+    if option != "ws_dist_tol":
+        for key, ref in info["mats"].items():
+            got = np.array(system.get_R_mat(key))
+            if got.shape != ref.shape or not np.array_equal(system.rvec.iRvec, info["iRvec_soc"]):
+                ctx.violation(f"set_soc_R[{option}]:R_set_differs_from_plain_call", f"{key}: {got.shape} vs {ref.shape}", wit)
+            else:
+                ctx.close(f"set_soc_R[{option}]:{key}!=plain_call", got, ref, rtol=RTOL, scale=max(np.abs(ref).max(), 1e-3), what=key, witness=wit)
+    info = dict(info, iRvec_soc=np.array(system.rvec.iRvec),
+                mats={k: np.array(system.get_R_mat(k)) for k in info["mats"]})
+    on_mesh_spectrum(ctx, rng, system, info, wit, f"set_soc_R[{option}]:spectrum_on_mesh!=input")
+    judge_soc(ctx, rng, system, info, wit, f"set_soc_R[{option}]")
+    ctx.count(f"soc_R_option_{option}")
+    if periodic == (True, True, False):
+        ctx.count("soc_R_2D")
+    ctx.nontrivial(("socR", option, nspin, periodic, info["num_wann_scalar"], nb, tuple(info["mp_grid"].tolist())))
+    ctx.sample(wit)
+
+
 def case(ctx, rng, idx, state):
-    [case_double_spin, case_soc_union, case_get_system_R, case_pauli][idx % 4](ctx, rng, idx)
+    [case_double_spin, case_soc_union, case_get_system_R, case_pauli, case_soc_history, case_soc_R_options][idx % 6](ctx, rng, idx)
 
 
 if __name__ == "__main__":
     harness.main(
         PROP, "exploration", case, setup_fn=setup,
-        tiers=dict(quick=dict(cases=640, shards=8, time=900), thorough=dict(cases=8000, shards=16, time=3000)),
-        rule="four families (idx%4): double_spin of random Hermitian models (1-5 WFs, with/without AA); SystemSOC with "
+        tiers=dict(quick=dict(cases=960, shards=8, time=900), thorough=dict(cases=9600, shards=16, time=3000)),
+        rule="six families (idx%6): double_spin of random Hermitian models (1-5 WFs, with/without AA); SystemSOC with "
              "alpha_soc=0 / no SOC matrices / alpha_soc!=0 for up/down R sets equal, permuted, nested, overlapping "
              "(cycled), SOC matrices set directly on an up/down/union/own R set or through set_soc_R with a synthetic "
              "SOC object + check-point stand-in; get_system_R vs Data_K_soc on random shifted FFT grids; rotated Pauli "
-             "matrices at random/special angles, degrees flag. A case is distinct by (family, R-set relation, variant, "
+             "matrices at random/special angles, degrees flag; one SystemSOC taken through 1-3 public calls (swap_spin_channels, second "
+             "set_soc_axis, to_npz/from_npz, swap twice, use) and judged after each (spectrum, HH_K, SS, dH/dk, get_system_R), 3D and 2D; "
+             "set_soc_R with kptirr/weights_k naming all mesh points, ws_dist_tol, list/array/dict containers, SOC.select_bands, axis set "
+             "later. A case is distinct by (family, R-set relation, variant, "
              "nspin, num_wann, path, SOC R-set mode)",
         assumptions=["reference H(k), S(k) assembled in the harness from the primary real-space matrices "
                      "(vlib/gen_soc.py) with independently written rotated Pauli matrices",
@@ -399,5 +764,9 @@ if __name__ == "__main__":
                      "spin checks inside doubled levels only when the spinless levels are separated by > 1e-6 (tie guard)"],
         required_counters=("double_spin_spectrum", "double_spin_spin", "soc_union_equal", "soc_union_permuted",
                            "soc_union_nested", "soc_union_overlapping", "soc_variant_alpha0", "soc_via_set_soc_R",
-                           "get_system_R", "get_system_R_permuted", "get_system_R_nested", "pauli_rotated", "units_flag"),
+                           "get_system_R", "get_system_R_permuted", "get_system_R_nested", "pauli_rotated", "units_flag",
+                           "history_swap_spin_channels", "history_second_set_soc_axis", "history_npz_roundtrip",
+                           "history_set_soc_axis_after_npz", "history_dH_judged", "history_2D", "soc_R_option_kptirr_all",
+                           "soc_R_option_ws_dist_tol", "soc_R_option_containers", "soc_R_option_select_bands",
+                           "soc_R_option_axis_later", "soc_R_2D"),
     )
